@@ -30,7 +30,7 @@ FWHM_M = 2 * math.sqrt(2 * math.log(2))
 arr_spec = st.one_of(
     st.fixed_dictionaries({'dist': st.just('explicit'),
                            'values': st.lists(gen.finite(-1e6, 1e6), min_size=1, max_size=8)}),
-    st.fixed_dictionaries({'dist': st.sampled_from(['gauss', 'uniform', 'two', 'shift']),
+    st.fixed_dictionaries({'dist': st.sampled_from(['gauss', 'uniform', 'two', 'shift', 'pm']),
                            'n': st.integers(1, 400), 'seed': st.integers(0, 2 ** 20),
                            'a': gen.finite(-50, 50), 'b': gen.finite(1e-3, 1e3)}),
     st.fixed_dictionaries({'dist': st.just('const_inexact'), 'n': st.integers(1, 60),
@@ -100,6 +100,9 @@ def make_array(spec):
         return spec['a'] + spec['b'] * rs.uniform(-1, 1, n)
     if d == 'two':
         return np.where(rs.uniform(size=n) < 0.5, spec['a'], spec['a'] + spec['b'])
+    if d == 'pm':
+        # equal magnitudes, both signs: varies although |x| is constant
+        return np.where(rs.uniform(size=n) < 0.5, -spec['b'], spec['b'])
     if d == 'shift':
         return spec['a'] * 1e6 + spec['b'] * rs.standard_normal(n)
     if d == 'huge':
